@@ -142,8 +142,15 @@ func (llb *Buffer) Peek(maxBytes int) ([][]byte, error) {
 func (llb *Buffer) PeekWithBytes(maxBytes int, bs ...[]byte) ([][]byte, error) {
 	if maxBytes <= 0 || maxBytes == math.MaxInt32 {
 		maxBytes = math.MaxInt32
-	} else if maxBytes > llb.Buffered() {
-		return nil, io.ErrShortBuffer
+	} else {
+		// The given byte slices are part of what can be peeked.
+		total := llb.Buffered()
+		for _, b := range bs {
+			total += len(b)
+		}
+		if maxBytes > total {
+			return nil, io.ErrShortBuffer
+		}
 	}
 	var bss [][]byte
 	var cum int
